@@ -348,7 +348,7 @@ func TestC11_Interleaved(t *testing.T) {
 	c := ev.New("C11", "interleaved", "exploration")
 	t.Cleanup(c.Flush)
 	c.Rule("one unchanging collection (as in the pagination sub-check, at most 80 objects) and 2-3 independent walks over it: half of the cases all SCAN of one direction (plain, MATCH prefix*, MATCH without a range prefix, WHERE/WHEREIN/WHEREEVAL; IDS or OBJECTS), a quarter any SCAN/SEARCH, a quarter any of the five commands with areas and options as in the pagination sub-check; LIMITs 1-8, two thirds of the walks share one LIMIT of 1-4 so that their cursors coincide; all walks on one connection, each on its own, or drawn. A drawn schedule of up to 40 steps picks a walk and lets it fetch its next page (3/4), request an earlier page again (the reply must be identical) or restart from an earlier cursor; afterwards the walks are finished alternately. Oracle per walk: after every page the items so far == the prefix of its own unlimited reply, at cursor 0 == the whole of it; page <= LIMIT, cursors increase, bounded round trips; the unlimited replies are unchanged at the end. Non-trivial: at least two walks have two or more pages and some continuation request directly follows a page of another walk; distinct by (queries, limits, page traces, order of requests).")
-	ev.Rapid("interleaved", ev.Pick(4000, 30000))
+	ev.Rapid("interleaved", ev.Pick(3000, 30000))
 	rapid.Check(t, func(rt *rapid.T) {
 		d := drawInterCase(rt)
 		c.Case()
